@@ -5,6 +5,7 @@ from common import Check, impl_run_parallel
 import gen
 import trees
 import validators as V
+from k06 import run_k06, run_k13  # K06/K13 correspondence (model <-> real renderers)
 
 PAYLOADS = [
     '<script>alert(1)<.script>', '"><img src=x onerror=alert(1)>', "'><svg onload=1>", '&lt;b&gt;', '&#60;b&#62;',
@@ -103,7 +104,7 @@ def gplus_headers(resp):
 
 def run(tier):
     chk = Check("C13", tier)
-    chk.proofs()
+    chk.proofs(extra_files=["Corr/K13.v"])  # K: Corr file of this property
     found = False
     rng = chk.rng
     payloads = list(PAYLOADS)
@@ -198,6 +199,11 @@ def run(tier):
                             "position at once (file and directory names, HTML titles, mail subjects, abstracts, .Links Name/Path/Host, gophermap "
                             "fields, request selector, search string, URL redirect, text-to-WML) and the page compared, element/attribute skeleton by "
                             "html.parser, with the page of an identically shaped inert site; HTTP header blocks and Gopher+ block headers likewise")
+    # ---- K: the Coq renderers / readers against the real code (harness/k06.py) ----
+    kmism, kerr, kdetails = run_k13(chk, tier)
+    if kmism or kerr:
+        chk.correspondence_broken("K13 (page builders, Gopher+ blocks, tokenizer/skeleton: Model/RenderUrl.v, Model/ClientView.v)",
+                                  {"mismatches": kmism[:10], "error": kerr, "counts": kdetails}, found)
     chk.finish_proofs(found)
     return chk.finish("proof")
 
